@@ -24,6 +24,24 @@ pub fn read_ndjson(path: &str) -> Vec<Value> {
     out
 }
 
+/// Streaming variant for large inputs (millions of TLC edges): one value at a time.
+pub fn for_each_ndjson(path: &str, mut f: impl FnMut(usize, Value)) -> usize {
+    let file = std::fs::File::open(path).unwrap_or_else(|e| panic!("open {path}: {e}"));
+    let r = std::io::BufReader::with_capacity(1 << 20, file);
+    let mut n = 0;
+    for (i, line) in r.lines().enumerate() {
+        let line = line.expect("read line");
+        let t = line.trim();
+        if t.is_empty() {
+            continue;
+        }
+        let v = serde_json::from_str(t).unwrap_or_else(|e| panic!("{path}:{}: bad json: {e}", i + 1));
+        f(n, v);
+        n += 1;
+    }
+    n
+}
+
 pub struct NdjsonOut {
     w: BufWriter<std::fs::File>,
 }
